@@ -56,42 +56,55 @@ Proof.
   destruct (col_den n e); [discriminate|]. inversion H. subst l. exact Hr.
 Qed.
 
-(* witnesses: strings the real regular expression lets through *)
+(* ------------------------------------------------------------ everything ParsePageSelection accepts *)
+Lemma parse_cons c s : ParsePageSelection (c :: s) =
+  if re_match (c :: s) then Some (split_on cComma (c :: s)) else None.
+Proof. reflexivity. Qed.
+
+Lemma rejects_outside_syntax s toks : ParsePageSelection s = Some toks ->
+  (s = [] /\ toks = []) \/
+  (exists e, e <> [] /\ forallb wf e = true /\ s = render e /\ toks = map render_term e).
+Proof.
+  destruct s as [|c s].
+  - intros H. inversion H. left. split; reflexivity.
+  - rewrite parse_cons. destruct (re_match (c :: s)) eqn:E; [|discriminate]. intros H. injection H as <-. right.
+    destruct (re_match_sound _ E) as (e & Hne & Hwf & Hs).
+    exists e. split; [exact Hne|]. split; [exact Hwf|]. split; [exact Hs|].
+    change (split_on cComma (c :: s) = map render_term e). rewrite Hs. apply split_render; assumption.
+Qed.
+
+Lemma all_pages_in_range n p b : In (p, b) (all_pages n) -> 1 <= p <= n.
+Proof.
+  intros Hin. apply mfind_in in Hin. unfold all_pages in Hin. rewrite for_range_eq in Hin.
+  change (fold_left (fun (s : smap) (j : Z) => mset j true s) (zrange 1 n) [])
+    with (put_list smap sel_put false (zrange 1 n) []) in Hin.
+  rewrite mfind_put_list, existsb_zrange in Hin.
+  destruct ((1 <=? p) && (p <=? n)) eqn:E; [lia|]. cbn in Hin. contradiction.
+Qed.
+
+Lemma selection_in_range_full s toks n ens m : 0 <= n ->
+  ParsePageSelection s = Some toks -> PagesForPageSelection n toks ens = Ok (Some m) ->
+  forall p b, In (p, b) m -> 1 <= p <= n.
+Proof.
+  intros Hn Hp Hm p b Hin.
+  destruct (rejects_outside_syntax s toks Hp) as [[_ ->]|(e & Hne & Hwf & _ & ->)].
+  - unfold PagesForPageSelection in Hm. destruct (negb ens); [discriminate|].
+    inversion Hm. subst m. eapply all_pages_in_range. exact Hin.
+  - eapply selection_in_range; eassumption.
+Qed.
+
+Lemma collection_in_range_full s toks n l : 0 <= n ->
+  ParsePageSelection s = Some toks -> PagesForPageCollection n toks = COk l -> Forall (in_pages n) l.
+Proof.
+  intros Hn Hp Hl.
+  destruct (rejects_outside_syntax s toks Hp) as [[_ ->]|(e & Hne & Hwf & _ & ->)].
+  - discriminate.
+  - eapply collection_in_range; eassumption.
+Qed.
+
+(* strings the regular expression let through before it was anchored *)
 Definition w_123 : str := [49; 45; 50; 45; 51]%N.          (* "1-2-3" *)
 Definition w_plus5 : str := [43; 53]%N.                     (* "+5" *)
 Definition w_lmm5 : str := [45; 108; 45; 45; 53]%N.         (* "-l--5" *)
-
-Lemma not_in_syntax s : in_syntax s = false ->
-  ~ exists e, e <> [] /\ forallb wf e = true /\ render e = s.
-Proof. intros H Hex. apply in_syntax_exact in Hex. congruence. Qed.
-
-Lemma rejects_outside_syntax_refuted :
-  exists s toks m,
-    (~ exists e, e <> [] /\ forallb wf e = true /\ render e = s)
-    /\ ParsePageSelection s = Some toks
-    /\ PagesForPageSelection 5 toks false = Ok (Some m) /\ mfind 2 m = Some true
-    /\ PagesForPageCollection 5 toks = COk [1; 2].
-Proof.
-  exists w_123, [w_123], [(1, true); (2, true)].
-  split; [apply not_in_syntax; vm_compute; reflexivity|]. vm_compute. repeat split; reflexivity.
-Qed.
-
-Lemma selection_in_range_refuted :
-  exists s toks n m p b,
-    ParsePageSelection s = Some toks /\ PagesForPageSelection n toks false = Ok (Some m)
-    /\ In (p, b) m /\ ~ (1 <= p <= n).
-Proof.
-  exists w_lmm5, [w_lmm5], 2, [(1, true); (2, true); (3, true); (4, true); (5, true); (6, true); (7, true)], 7, true.
-  split; [vm_compute; reflexivity|]. split; [vm_compute; reflexivity|].
-  split; [cbn; tauto|lia].
-Qed.
-
-Lemma collection_in_range_refuted :
-  exists s toks n l p,
-    ParsePageSelection s = Some toks /\ PagesForPageCollection n toks = COk l
-    /\ In p l /\ ~ (1 <= p <= n).
-Proof.
-  exists w_lmm5, [w_lmm5], 2, [1; 2; 3; 4; 5; 6; 7], 7.
-  split; [vm_compute; reflexivity|]. split; [vm_compute; reflexivity|].
-  split; [cbn; tauto|lia].
-Qed.
+Definition w_foo1 : str := [102; 111; 111; 49]%N.           (* "foo1" *)
+Definition w_xoddx : str := [120; 111; 100; 100; 120]%N.    (* "xoddx" *)
